@@ -21,6 +21,11 @@
   saved block that descends from the stable block, height = parent height + 1, time ≥ parent time, the new head
   descends from the (new) stable block).
 
+  NOT MODELLED (see props/C04.json `partial`): every op is ATOMIC — in particular `ask` (head read + guard call; two
+  unlocked reads in Go, see its doc comment); the early error returns of MineBlock (after GetTxs / DelTxs(replayedTxs),
+  before saveNewBlock) and of saveNewBlock (ErrSaveBlock after txGuard.SaveBlock) are no ops: `mine` always saves;
+  `envB`'s `confirm` does not require a higher stable height (over-approximation).
+
   VARIANTS (`Cfg`).  The driver and the registered current-code theorems use `Cfg.live = ⟨true, true⟩`:
     * `boxDupCheck`    = true: since /repo fix 786852c `checkBoxTx` (VerifyTxBody) refuses a box that names a sub-tx twice;
                          false = the code before it (such a box was pooled through SendTx / handleTxsMsg);
@@ -218,7 +223,11 @@ def mine (cfg : Cfg) (s : State) (hash now : Nat) (skip invalid : List Nat) (sta
 
 /-! ### the entry points of a single transaction -/
 
-/-- first half of `SendTx` / `handleTxsMsg`: `VerifyTxBody(now)`, `ExistTx(CurrentBlock().Hash(), tx)` -/
+/-- first half of `SendTx` / `handleTxsMsg`: `VerifyTxBody(now)`, `ExistTx(CurrentBlock().Hash(), tx)`.
+    ATOMIC HERE, NOT IN GO: the head read and the guard call are one step of the model; Go reads `CurrentBlock()` and calls
+    `ExistTx(thatBlock.Hash(), tx)` later with no lock (the entry goroutines never take `chainLock`), so an
+    `InsertConfirms` can run in between and prune that head from the guard's cache: the guard then panics for it
+    (`LemoProofs.C04Pool.stale_head_ask_panics`).  That two-read race is not an op sequence of this machine. -/
 def ask (cfg : Cfg) (s : State) (now : Nat) (tx : Tx) : Option State :=
   if validBody cfg tx now then
     match s.g.existTxs s.head.hash [tx] with
